@@ -110,11 +110,15 @@ class LineTracer:
     """Counts pre-emptible line events of the calling thread; raises SimAbort at event abort_at."""
 
     def __init__(self, abort_at: Optional[int] = None, trace_lark: bool = False,
-                 no_abort_in: Tuple[str, ...] = ()) -> None:
+                 no_abort_in: Tuple[str, ...] = (),
+                 abort_only_under: Tuple[str, ...] = ()) -> None:
         self.ff = FrameFilter(trace_lark)
         self.abort_at = abort_at
         # functions in which no abort is injected (the abort is delayed to the next line outside)
         self.no_abort_in = no_abort_in
+        # if given: an abort is only injected while some frame on the stack runs code from a file
+        # whose name ends with one of these (i.e. inside that code's dynamic extent)
+        self.abort_only_under = abort_only_under
         self.steps = 0
         self.fired_site: Optional[str] = None
         self._ident = 0
@@ -129,6 +133,17 @@ class LineTracer:
         if self.abort_at is not None and self.steps >= self.abort_at:
             if code.co_qualname in self.no_abort_in:
                 return None
+            if self.abort_only_under:
+                f = sys._getframe(1)
+                inside = False
+                while f is not None:
+                    fn = f.f_code.co_filename
+                    if fn.endswith(self.abort_only_under):
+                        inside = True
+                        break
+                    f = f.f_back
+                if not inside:
+                    return None
             self.abort_at = None
             self.fired_site = site_of(code, line, tag)
             raise SimAbort(self.fired_site)
